@@ -290,6 +290,15 @@ def tee_programs(tier):
             progs.append({"custom": "mc.families.c19_itertools:build_tee", "consumers": n_cons,
                           "elements": n_el, "source": src_kind,
                           "label": f"tee consumers={n_cons} elements={n_el} source={src_kind}"})
+    # a consumer whose __anext__() is cancelled (any placement, once or twice) and which then
+    # carries on iterating must still see every element (synchronous source: cancelling an
+    # asynchronous generator in mid-await finishes the generator, which is not tee's doing)
+    for n_el, ncancel in ((2, 1), (3, 1), (2, 2)) if tier == "quick" else ((2, 1), (3, 1), (2, 2),
+                                                                          (3, 2), (4, 1)):
+        progs.append({"custom": "mc.families.c19_itertools:build_tee", "consumers": 2,
+                      "elements": n_el, "source": "sync", "cancels": ncancel,
+                      "label": f"tee consumers=2 elements={n_el} sync source, consumer 1's "
+                               f"__anext__ cancelled up to {ncancel}x"})
     return progs
 
 
@@ -321,11 +330,33 @@ def build_tee(world, program):
             if i:
                 await gates[f"c{i}"].wait()
             got = []
+            if i == 1 and program.get("cancels"):
+                it = its[i].__aiter__()
+                while True:
+                    with anyio.CancelScope() as sc:
+                        cur["sc"] = sc
+                        try:
+                            x = await it.__anext__()
+                        except StopAsyncIteration:
+                            break
+                    if sc.cancelled_caught:
+                        w.ev("anext_cancelled", i)
+                        continue
+                    got.append(x)
+                    w.ev("got", i, x)
+                cur["sc"] = None
+                w.ev("done", i, got)
+                return
             async for x in its[i]:
                 got.append(x)
                 w.ev("got", i, x)
             w.ev("done", i, got)
 
+        cur = {"sc": None}
+        for k in range(program.get("cancels", 0)):
+            w.ctl.add_action(f"cancel_anext:{k}", lambda: cur["sc"] and cur["sc"].cancel(),
+                             enabled=lambda: cur["sc"] is not None and not cur["sc"].cancel_called,
+                             after=[f"cancel_anext:{k - 1}"] if k else ())
         for i in range(1, n_cons):
             w.ctl.add_action(f"start:c{i}", gates[f"c{i}"].set)
         for j, g in enumerate(sgates):
